@@ -270,3 +270,11 @@ Reassemblers through reflection on every run, fields found by behaviour, not by 
 The model's state has sequence numbers, a flag and sizes, no counters; a counter that wraps after 2^32 events (a few hours
 of a busy host, far beyond any history a check can run) would make whatever is decided from it wrong from then on. -/
 theorem C11_no_narrow_operation_counters : LA.Gen.ReasmFacts.narrowCounters = [] := by decide
+
+/-- What the root package reads of the process it runs in is the clock (the Reassembler's deadlines, which the model is
+given as readings), the process id (an input of SetPID) and the page size (the default receive buffer): `envReads`,
+regenerated with go/types on every run, lists the package-level functions of os, os/user, os/exec, net, runtime,
+math/rand, crypto/rand that are called, time.Now / Since / Until, file-system functions of path/filepath and process
+queries of syscall. Nothing else of the machine — processors, environment variables, files, random numbers — can
+influence what the Reassembler or the client does. -/
+theorem C11_environment_is_clock_pid_pagesize : LA.StateFacts.envOf "" = LA.StateFacts.rootEnv := by decide
